@@ -38,3 +38,15 @@ claim("C06",
  "Lock and channel invariants of MuxBroker: every pending slot stored under key k has ghost key k and its channel only ever carries connections whose first wire word is k; Accept(id) returns only such a connection and acks id; Dial(id) writes id and accepts only ack id; the net/rpc dispenser serves the implementation it created on the id it returned and the client dials the id it was given; NextId is a single atomic increment (distinct for fewer than 2^32 calls). A pure SMT lemma joins both ends.",
  "yamux stream pairing and FIFO delivery are assumed (lemma hypothesis); 'both succeed inside the ~5 s window' is timing and not decided. Documented precondition: one outstanding Accept per id.",
  "DESIGN.md section 7 C06")
+claim("C07",
+ "Non-multiplexed GRPCBroker: Accept(id) announces a ConnInfo carrying id and the (translated) address of the listener it created in this call and returns that listener; Run files every non-knock message under its ServiceId (channel invariant); DialWithOptions(id) consumes only ConnInfo with ServiceId id and dials exactly the (translated, resolved) address it carries, with TLS iff the broker has a config; AcceptAndServe serves on the accepted listener and closes it; both streamer implementations hand messages over unchanged.",
+ "gRPC transport, ordering of the broker stream and the ~5 s timing window are not decided; custom runners' address translation is assumed to be inverse (identity proved for cmdrunner).",
+ "DESIGN.md section 7 C07")
+claim("C08",
+ "Multiplexed broker: per-function routing contracts of GRPCBroker (knock, listenForKnocks, muxDial holding dialMutex from knock to Dial), GRPCServerMuxer (a connection accepted while a knock for id is queued goes to the channel registered under id; the 'no listener' branch that tears down the main server is unreachable when knocks are only acknowledged for registered ids) and GRPCClientMuxer; spawn precondition: the knock listener starts only after the id's listener is registered (fixed defect D4).",
+ "Sequential establishment is a documented precondition; yamux FIFO of Open/Accept and schedules of concurrent establishments are not decided.",
+ "DESIGN.md section 7 C08")
+claim("C09",
+ "No blocking operation while a broker lock is held (noblock-locked obligations on every channel operation and blocking call), locks balanced on every exit, every broker wait has a timer / quit / connection-bound justification, every inbound stream is parked, handed over or closed (ownership counter), Close closes quit/done channels once. Fixed defects D5 and D6.",
+ "Wall-clock values and select fairness are not decided; connection-bound waits are accepted in mode peer-dead (pending I/O fails when the peer dies).",
+ "DESIGN.md section 7 C09")
